@@ -37,7 +37,8 @@ class CustomizedLattice(AbstractLattice):
         """
         Construct the adjacency matrix, indicating nearest neighbors.
         """
-        return self.adj
+        # a copy, such that in-place changes by the caller do not alter the lattice
+        return self.adj.copy()
 
     def index_to_coord(self, i: int) -> tuple:
         """
